@@ -302,6 +302,9 @@ crypto_entropy_read(uint8_t * buf, size_t buflen)
 
 	if (ent_fail || buflen != 32) return (-1);
 	memcpy(buf, ent, 32);
+	/* a second draw within one operation (code that rejects a blinding value and draws again) sees another value */
+	ent[31] ^= 0x5a;
+	ent[0] ^= 0x01;
 	return (0);
 }
 
@@ -382,6 +385,44 @@ main(void)
 				ok = allzero(c, sizeof(*c)); h_free(c);
 			}
 			printf(ok ? "ctxzero" : "ctxNONZERO");
+		} else if (hc_is("hashbig", 2)) {
+			/*
+			 * hashbig <alg> <n>: n bytes (one 1 MiB block fed again and again, then the rest) through Update,
+			 * then Final: from 2^29 bytes on the upper half of the bit count is not zero any more -- it is
+			 * part of the context and has to be wiped like everything else
+			 */
+			static uint8_t blk[1 << 20];
+			uint8_t dg[32];
+			size_t n = strtoull(hc_tok[2], NULL, 10), left;
+			int ok;
+
+			if (n > ((size_t)1 << 31))
+				printf("skip");
+			else {
+				if (strcmp(hc_tok[1], "sha256") == 0) {
+					SHA256_CTX * c = __real_malloc(sizeof(*c));
+					SHA256_Init(c);
+					for (left = n; left > 0; left -= (left > sizeof(blk) ? sizeof(blk) : left))
+						SHA256_Update(c, blk, left > sizeof(blk) ? sizeof(blk) : left);
+					SHA256_Final(dg, c);
+					ok = allzero(c, sizeof(*c)); h_free(c);
+				} else if (strcmp(hc_tok[1], "sha1") == 0) {
+					SHA1_CTX * c = __real_malloc(sizeof(*c));
+					SHA1_Init(c);
+					for (left = n; left > 0; left -= (left > sizeof(blk) ? sizeof(blk) : left))
+						SHA1_Update(c, blk, left > sizeof(blk) ? sizeof(blk) : left);
+					SHA1_Final(dg, c);
+					ok = allzero(c, sizeof(*c)); h_free(c);
+				} else {
+					MD5_CTX * c = __real_malloc(sizeof(*c));
+					MD5_Init(c);
+					for (left = n; left > 0; left -= (left > sizeof(blk) ? sizeof(blk) : left))
+						MD5_Update(c, blk, left > sizeof(blk) ? sizeof(blk) : left);
+					MD5_Final(dg, c);
+					ok = allzero(c, sizeof(*c)); h_free(c);
+				}
+				printf(ok ? "ctxzero" : "ctxNONZERO");
+			}
 		} else if (strcmp(hc_tok[0], "hmac") == 0 && hc_ntok >= 3) {
 			/* hmac <alg> <key> <chunk>... */
 			uint8_t dg[32];
